@@ -24,6 +24,9 @@ func (it *Interp) opDump(op *Op) {
 	}
 	sd.epoch = it.epoch
 	it.saved = sd
+	if it.M.OpenQ >= 64 {
+		panic("bad op: dump needs a free lock bit")
+	}
 	it.run(op, true, func(b *Backend) {
 		b.saved = &backendDump{dump: b.U.DumpEntities(), h: append([]ecs.Entity{}, b.H...)}
 	})
